@@ -61,7 +61,7 @@ Definition rx_step (maxrx : N) (tbl : list (N * topic)) (p : wpkt) (auth : bool)
   | None =>
       match wtopic p with
       | Some t => (tbl, if auth then RRoute t else RDrop)
-      | None => (tbl, RTerminate)            (* empty topic without alias: rejected *)
+      | None => (tbl, RTerminate)            (* empty topic without alias: rejected (by the packet decoder) *)
       end
   | Some a =>
       if (a =? 0) || (maxrx <? a) then (tbl, RTerminate) else
